@@ -6,5 +6,8 @@ import (
 	"verifharness/vt"
 )
 
-func TestProp(t *testing.T)   { vt.RunAll(t, 4000) }
+func TestProp(t *testing.T) {
+	probeKnown()
+	vt.RunAll(t, 4000)
+}
 func TestReplay(t *testing.T) { vt.ReplayAll(t) }
